@@ -175,3 +175,28 @@ pub fn hex(bytes: &[u8]) -> String {
     }
     s
 }
+
+/// round 5 — breadcrumb: the request about to be run on the REAL code, kept in `<out>/breadcrumb.txt` (one line,
+/// overwritten in place). `catch_unwind` cannot contain an abort (allocation failure, stack overflow, `process::exit`);
+/// when the harness dies, `bin/ibcheck` reports this line as the input that was running.
+static BREADCRUMB: std::sync::Mutex<Option<std::fs::File>> = std::sync::Mutex::new(None);
+pub fn breadcrumb_init(dir: &str) {
+    let _ = std::fs::create_dir_all(dir);
+    if let Ok(f) = std::fs::OpenOptions::new().create(true).write(true).truncate(true).open(std::path::Path::new(dir).join("breadcrumb.txt")) {
+        *BREADCRUMB.lock().unwrap_or_else(std::sync::PoisonError::into_inner) = Some(f);
+    }
+}
+pub fn breadcrumb(text: &str) {
+    use std::io::{Seek, Write};
+    let mut g = BREADCRUMB.lock().unwrap_or_else(std::sync::PoisonError::into_inner);
+    if let Some(f) = g.as_mut() {
+        let line: String = text.chars().take(4000).collect();
+        let _ = f.seek(std::io::SeekFrom::Start(0));
+        let _ = f.write_all(line.as_bytes());
+        let _ = f.set_len(line.len() as u64);
+    }
+}
+pub fn breadcrumb_done() {
+    let mut g = BREADCRUMB.lock().unwrap_or_else(std::sync::PoisonError::into_inner);
+    if let Some(f) = g.as_mut() { let _ = f.set_len(0); }
+}
